@@ -1,18 +1,48 @@
 """C01 — theorems on the building blocks (coq/props/C01.v) + exact whole-model monitor."""
 import sys
 
+import random
+
+import mon_net as MN
 import net_check
+import netgen as NG
 
 RULE = ("random well-formed models (river chains and confluences with junctions, reservoirs and river reservoirs; supply "
         "chains reservoir - FWTW - distribution - demand - sewer(s) - WWTW - river with overflow and leakage to groundwater; "
         "land with impervious / pervious surfaces, groundwater or queue groundwater, sewers) under four pollutant "
         "configurations, shuffled insertion order, forcing with zeros, dry spells and bursts, run in exact arithmetic with the "
         "observer hooks; at every timestep every node's declared inflow minus outflow equals the directly measured change of what it stores (plus decay inside the window). non-trivial = distinct model with >= 4 nodes."
+        " float stream: land with growing surfaces (crop calendars, nutrient pools) and the default pollutant set incl. river biochemistry, every node's balance within rounding."
         " correspondence (family net): random networks of the real Node, Waste, Storage, Reservoir, Groundwater, River and Catchment classes over plain arcs (3-8 nodes, chains, confluences, stores in cycles, limited capacities, preferences) driven by distribute / route / make_abstractions calls and direct pushes, pulls and checks over arcs: every store and every arc record after every operation equals the model's exactly, and the wiring hypothesis of the network theorems (net_wfb) is evaluated on every network built.")
+
+def float_growing(rep, thorough):
+    """the node classes outside the exact generator: land with growing surfaces (crop calendar, nutrient pools, soil water
+    whose nutrient speciation need not match the pool's), default pollutant set with river biochemistry, floating point:
+    every node's declared balance closes at every timestep within rounding"""
+    n = 300 if thorough else 50
+    viol = 0
+    raised = 0
+    for i, (seed, size) in enumerate(net_check.gen_cases("net_C01_float_growing", n, 5)):
+        r0 = random.Random(seed)
+        opts = {"growing": True, "start": r0.choice(["2000-03-29", "2003-03-30", "2000-05-10", "2001-07-01", "2000-09-20", "2000-12-29"])}
+        cfg = NG.gen_model(random.Random(seed), ndates=r0.choice([5, 8, 12]), polset="default", size=r0.choice(["land", "land", "full"]), opts=opts)
+        mon, model, err, out = MN.run_cfg(cfg, "float", pids=("C01",))
+        rep.add_eval(("net-float-growing", seed), nontrivial=len(cfg["nodes"]) >= 4)
+        raised += int(err is not None)
+        for (p, msg, sig) in mon.viol:
+            if sig or p != "C01":
+                continue
+            viol += 1
+            if viol <= 3:
+                rep.violation("counterexample", f"C01 whole-model monitor (float, growing surfaces): {msg}",
+                              {"seed": seed, "size": size, "mode": "float", "config": NG.cfg_json(cfg)}, True)
+    rep.monitor["C01_models_float_growing_surfaces"] = {"models": n, "raised": raised, "violations": viol}
+    return {}
+
 
 if __name__ == "__main__":
     sys.exit(net_check.run("C01", RULE,
                            ["exact-rational semantics stands for float semantics up to rounding",
                             "remainders below FLOAT_ACCURACY that the code drops by design count as dust (tolerance 1e-9 on exact values)",
                             "treatment parameters are well-formed (constant x temperature factor + liquor multiplier <= 1)"],
-                           n_quick=160, ndates=5, corr=[("net", 250, 2500, 8), ("demand", 200, 2000, 8), ("tarea", 150, 1500, 8), ("wtw", 200, 2000, 8), ("land", 150, 1200, 6)]))
+                           n_quick=160, ndates=5, extra=float_growing, corr=[("net", 250, 2500, 8), ("demand", 200, 2000, 8), ("tarea", 150, 1500, 8), ("wtw", 200, 2000, 8), ("land", 150, 1200, 6)]))
